@@ -61,7 +61,7 @@ StepSucc(s) ==
           ELSE x.th[t].n = fc[t] \/ (x.th[t].n = fc[t] + 1 /\ x.th[t].pc = "idle")
        /\ Match(x, o) }
 
-OpSucc(s) == { x \in Macro(s, Main, Line.act.o) : Match(x, Line.obs) }
+OpSucc(s) == { x \in MacroX(s, Main, Line.act.o) : Match(x, Line.obs) }
 
 TraceInit == SS = {InitS(1)} /\ M = MonInit /\ P = <<>> /\ fc = <<0>> /\ l = 1 /\ div = FALSE
 
